@@ -64,7 +64,8 @@ attack = st.one_of(
     st.fixed_dictionaries({"cls": st.just("bytes"), "which": st.sampled_from([1, 2, 2, 2, 3]), "op": byte_op, "fixcrc": st.booleans()}),
     st.fixed_dictionaries({"cls": st.just("hello"), "kind": st.sampled_from([
         "attacker-signed", "attacker-signed-keep-root", "swap-pubkey", "swap-salt", "swap-token", "swap-root-only",
-        "other-session", "wrong-pin", "other-type", "sig-reencode", "empty-sig", "payload-extra"])}),
+        "other-session", "wrong-pin", "other-type", "sig-reencode", "empty-sig", "payload-extra",
+        "sig-null", "sig-int", "sig-str", "sig-bool", "sig-list", "sig-float", "sig-null", "sig-int"])}),
     st.fixed_dictionaries({"cls": st.just("challenge"), "kind": st.sampled_from([
         "wrong-token-right-key", "right-token-wrong-key", "crc-plaintext", "other-address", "token-plus-one", "garbage-under-key",
         "token-bit-flip", "token-bit-flip", "token-offset", "other-pending-token", "other-pending-token"]), "bit": st.integers(0, 63), "off": st.sampled_from([2 ** 31, -2 ** 31, 2 ** 32, -2 ** 32, 2 ** 30, 2 ** 63 - 2 ** 31])}),
@@ -249,6 +250,12 @@ class Mitm(object):
             new = join_hello(tid, root, payload, sig[:-1] + bytes([sig[-1] ^ 1]))
         elif kind == "empty-sig":
             new = join_hello(tid, root, payload, b"")
+        elif kind.startswith("sig-"):
+            # the fields of a hello are self-describing: the sender chooses the TYPE of the signature field.  Attacker's key
+            # exchange parameters under the genuine root key, "signed" with a value that is not a byte string at all
+            val = {"sig-null": None, "sig-int": 0, "sig-str": "", "sig-bool": True, "sig-list": [], "sig-float": 1.5}[kind]
+            pl = ser(atk_pub) + ser(salt) + ser(token)
+            new = join_hello(tid, root, pl, val)
         elif kind == "payload-extra":
             new = join_hello(tid, root, payload + ser(atk_pub), sig)
         else:
